@@ -1,0 +1,435 @@
+//go:build verif
+
+package wtxmgr
+
+// Contracts for the rest of C12 and for C01 (comment only).
+
+// ==== C12 remainder / C01 pieces (appended) ====
+
+// A confirmed spend removes the lease of every output it spends.
+//@ macro NOLEASE(ns, op) = !(select(DBlive, B_LO(ns)) && HAS(B_LO(ns), KOP(op)))
+//@ func (*Store).insertMinedTx(s, ns, rec, block) (err)
+//@   property C12
+//@   requires wf: s != nil && ns != nil && rec != nil && block != nil
+//@   requires mi_wf: INV_MI(ns)
+//@   invariant 1 idx: 0 <= rangeindex + 1 && rangeindex + 1 <= len(rec.MsgTx.TxIn)
+//@   invariant 1 cleared: forall j Int :: {rec.MsgTx.TxIn[j]} 0 <= j && j < rangeindex + 1 ==> NOLEASE(ns, rec.MsgTx.TxIn[j].PreviousOutPoint)
+//@   ensures clears_leases: err == nil ==> (forall i Int :: {rec.MsgTx.TxIn[i]} 0 <= i && i < len(rec.MsgTx.TxIn) ==> NOLEASE(ns, rec.MsgTx.TxIn[i].PreviousOutPoint))
+
+// ---- iteration over the lease bucket ----
+// Ghost log of the callback of forEachLockedOutput: what it was last called
+// with, and how often.
+//@ ghost cbCount Int
+//@ ghost cbKey Bytes
+//@ ghost cbExpiry Int
+//@ ghost cbId [Int]Int
+//@ func forEachLockedOutput$1@f(op, id, expiration)
+//@   trusted
+//@   modifies cbCount, cbKey, cbExpiry, cbId
+//@   ensures logged: cbCount == old(cbCount) + 1 && cbKey == KOP(op) && cbExpiry == tns(expiration) && cbId == id
+
+// The bucket walker hands every record to the callback exactly once, decoded:
+// outpoint = the key, id = first 32 value bytes, expiry = stored seconds.
+// Assumed about ForEach (G-DB): (k, v) is a record of the lease bucket, hence
+// 40 value bytes (INV_LO).
+//@ func forEachLockedOutput$1(k, v) (err)
+//@   property C12
+//@   requires record: len(v) >= 40
+//@   requires bytes_are_bytes: forall i Int :: {k[i]} 0 <= k[i] && k[i] <= 255
+//@   ensures short_key_refused: len(k) < 36 ==> err != nil && cbCount == old(cbCount)
+//@   ensures callback_once: err == nil ==> cbCount == old(cbCount) + 1
+//@   ensures callback_decoded: err == nil ==> cbKey == bsub(bytes(k), 0, 36) && cbExpiry == secToInt(leaseSec(bytes(v))) * 1000000000
+//@       && (forall i Int :: {select(cbId, i)} 0 <= i && i < 32 ==> select(cbId, i) == v[i])
+
+// readCanonicalOutPoint is the inverse of canonicalOutPoint on the first 36 key bytes.
+//@ func readCanonicalOutPoint(k, op) (err)
+//@   property C12 C01
+//@   requires nonnil: op != nil
+//@   ensures short_refused: (err != nil) == (len(k) < 36)
+//@   ensures hash: err == nil ==> (forall i Int :: {select(op.Hash, i)} 0 <= i && i < 32 ==> select(op.Hash, i) == old(k[i]))
+//@   ensures index: err == nil ==> op.Index == old(be32(k[32], k[33], k[34], k[35]))
+//@   ensures inverse: err == nil && old(forall i Int :: {k[i]} 32 <= i && i < 36 ==> 0 <= k[i] && k[i] <= 255) ==> K_op(op.Hash, op.Index) == bsub(old(bytes(k)), 0, 36)
+//@   ensures error_kind: err != nil ==> typeis(err, Error)
+
+// Expiry sweep, collecting pass: a visited lease is collected for deletion
+// exactly when the clock reading is not before its expiry (now >= expiry);
+// a lease with now < expiry is kept. The list only grows at its end.
+//@ func (*Store).DeleteExpiredLockedOutputs$1(op, _, expiration)
+//@   property C12
+//@   requires wf: s != nil && s.clock != nil
+//@   ensures expired_collected: !(tns(clockVal(old(clk))) < tns(expiration)) ==> len(expiredOutputs) == old(len(expiredOutputs)) + 1
+//@       && expiredOutputs[len(expiredOutputs) - 1] == op
+//@   ensures unexpired_kept: tns(clockVal(old(clk))) < tns(expiration) ==> expiredOutputs == old(expiredOutputs)
+//@   ensures earlier_kept: forall j Int :: {expiredOutputs[j]} 0 <= j && j < old(len(expiredOutputs)) ==> expiredOutputs[j] == old(expiredOutputs[j])
+//@   ensures one_reading: clk == old(clk) + 1
+
+// Expiry sweep, deleting pass: every collected lease is removed, no lease that
+// was not collected is removed, none is added or rewritten. (Which leases are
+// collected: the closure contract above, applied by ForEach to every record.)
+//@ macro LREC(ns, k) = (select(DBlive, B_LO(ns)) && select(select(DBhas, B_LO(ns)), k))
+//@ func (*Store).DeleteExpiredLockedOutputs(s, ns) (err)
+//@   property C12
+//@   requires wf: s != nil && s.clock != nil && ns != nil
+//@   invariant 1 idx: 0 <= rangeindex + 1 && rangeindex + 1 <= len(expiredOutputs)
+//@   invariant 1 removed: forall j Int :: {expiredOutputs[j]} 0 <= j && j < rangeindex + 1 ==> NOLEASE(ns, expiredOutputs[j])
+//@   invariant 1 only_collected: forall k Bytes :: {select(select(DBhas, B_LO(ns)), k)} old(LREC(ns, k)) && !LREC(ns, k) ==>
+//@       (exists j Int :: 0 <= j && j < rangeindex + 1 && k == KOP(expiredOutputs[j]))
+//@   invariant 1 none_added: DBlive == old(DBlive) && DBval == old(DBval) && (forall k Bytes :: {select(select(DBhas, B_LO(ns)), k)} LREC(ns, k) ==> old(LREC(ns, k)))
+//@   ensures collected_removed: err == nil ==> (forall j Int :: {expiredOutputs[j]} 0 <= j && j < len(expiredOutputs) ==> NOLEASE(ns, expiredOutputs[j]))
+//@   ensures only_collected_removed: err == nil ==> (forall k Bytes :: {select(select(DBhas, B_LO(ns)), k)} old(LREC(ns, k)) && !LREC(ns, k) ==>
+//@       (exists j Int :: 0 <= j && j < len(expiredOutputs) && k == KOP(expiredOutputs[j])))
+//@   ensures none_added: DBlive == old(DBlive) && DBval == old(DBval) && (forall k Bytes :: {select(select(DBhas, B_LO(ns)), k)} LREC(ns, k) ==> old(LREC(ns, k)))
+
+// The walker itself writes nothing to the database; without a lease bucket the
+// callback is never invoked.
+//@ func forEachLockedOutput(ns, f) (err)
+//@   property C12
+//@   requires ns: ns != nil
+//@   ensures no_bucket_no_callback: !old(select(DBlive, B_LO(ns))) ==> err == nil && cbCount == old(cbCount)
+//@   ensures db_unchanged: DB_UNCHANGED()
+
+// Listing: a visited lease is listed exactly when the clock reading is before
+// its expiry (an output is leased exactly while now < expiry), with its
+// outpoint, id and expiry; earlier entries stay.
+//@ func (*Store).ListLockedOutputs$1(op, id, expiration)
+//@   property C12
+//@   requires wf: s != nil && s.clock != nil
+//@   ensures unexpired_listed: tns(clockVal(old(clk))) < tns(expiration) ==> len(outputs) == old(len(outputs)) + 1
+//@       && outputs[len(outputs) - 1] != nil && outputs[len(outputs) - 1].Outpoint == op && outputs[len(outputs) - 1].LockID == id
+//@       && outputs[len(outputs) - 1].Expiration == expiration
+//@   ensures expired_skipped: !(tns(clockVal(old(clk))) < tns(expiration)) ==> outputs == old(outputs)
+//@   ensures earlier_kept: forall j Int :: {outputs[j]} 0 <= j && j < old(len(outputs)) ==> outputs[j] == old(outputs[j])
+//@   ensures one_reading: clk == old(clk) + 1
+
+//@ func (*Store).ListLockedOutputs(s, ns) (outputs, err)
+//@   property C12
+//@   requires wf: s != nil && s.clock != nil && ns != nil
+//@   ensures db_unchanged: DB_UNCHANGED()
+//@   ensures error_no_list: err != nil ==> outputs == nil
+
+// ==== C01: mined balance, unspent index and credit records ====
+// int64 view of a stored uint64 (two's complement)
+//@ spec func i64(v Int) Int = v > 9223372036854775807 ? v - 18446744073709551616 : v
+// amount held in the first 8 bytes of a record (balance value, credit value)
+//@ spec func amtOf(v Bytes) Int = i64(be64(bat(v, 0), bat(v, 1), bat(v, 2), bat(v, 3), bat(v, 4), bat(v, 5), bat(v, 6), bat(v, 7)))
+//@ macro K_BAL() = bytes(rootMinedBalance)
+// the mined balance counter of namespace ns
+//@ macro BAL(ns) = amtOf(VAL(bid(ns), K_BAL()))
+//@ macro BAL_OK(ns) = (HAS(bid(ns), K_BAL()) && blen(VAL(bid(ns), K_BAL())) == 8)
+// exactly one key of one bucket is (over)written / removed
+//@ macro PUT1(b, k, v) = (DBlive == old(DBlive) && DBhas == store(old(DBhas), b, store(select(old(DBhas), b), k, true)) && DBval == store(old(DBval), b, store(select(old(DBval), b), k, v)))
+//@ macro DEL1(b, k) = (DBlive == old(DBlive) && DBval == old(DBval) && DBhas == store(old(DBhas), b, store(select(old(DBhas), b), k, false)))
+
+//@ func fetchMinedBalance(ns) (amt, err)
+//@   property C01
+//@   requires ns: ns != nil
+//@   ensures malformed_refused: (err != nil) == !BAL_OK(ns)
+//@   ensures value: err == nil ==> amt == BAL(ns)
+//@   ensures db_unchanged: DB_UNCHANGED()
+
+//@ func putMinedBalance(ns, amt) (err)
+//@   property C01
+//@   opt noauto store_wf
+//@   requires ns: ns != nil
+//@   ensures stored: err == nil ==> BAL_OK(ns) && BAL(ns) == amt
+//@   ensures one_key: err == nil ==> PUT1(bid(ns), K_BAL(), VAL(bid(ns), K_BAL()))
+//@   ensures failure_changes_nothing: err != nil ==> DB_UNCHANGED()
+
+// ---- byte-exact record codecs (unspent index value, credit key, credit value) ----
+//@ spec func u32(v Int) Int = v < 0 ? v + 4294967296 : v
+//@ spec func u64(v Int) Int = v < 0 ? v + 18446744073709551616 : v
+//@ spec func i32(v Int) Int = v > 2147483647 ? v - 4294967296 : v
+// unspent value: block height (uint32, big-endian) then the block hash
+//@ spec func uvArr(bh [Int]Int, hgt Int) [Int]Int
+//@ axiom uvArr_def: forall bh [Int]Int, g Int, i Int :: {select(uvArr(bh, g), i)}
+//@     select(uvArr(bh, g), i) == ((0 <= i && i < 4) ? be32byte(g, i) : ((4 <= i && i < 36) ? select(bh, i - 4) : 0))
+//@ spec func V_u(bh [Int]Int, height Int) Bytes = mkbytes(36, uvArr(bh, u32(height)))
+// credit key: tx hash, block height, block hash, output index
+//@ spec func kcrArr(txh [Int]Int, idx Int, bh [Int]Int, hgt Int) [Int]Int
+//@ axiom kcrArr_def: forall t [Int]Int, x Int, b [Int]Int, g Int, i Int :: {select(kcrArr(t, x, b, g), i)}
+//@     select(kcrArr(t, x, b, g), i) == ((0 <= i && i < 32) ? select(t, i) : ((32 <= i && i < 36) ? be32byte(g, i - 32) :
+//@         ((36 <= i && i < 68) ? select(b, i - 36) : ((68 <= i && i < 72) ? be32byte(x, i - 68) : 0))))
+//@ spec func K_cr(txh [Int]Int, idx Int, bh [Int]Int, height Int) Bytes = mkbytes(72, kcrArr(txh, idx, bh, u32(height)))
+// unspent credit value: amount (uint64, big-endian) then the flag byte (0x02 = change, 0x01 = spent)
+//@ spec func cvArr(amt Int, flags Int) [Int]Int
+//@ axiom cvArr_def: forall a Int, f Int, i Int :: {select(cvArr(a, f), i)}
+//@     select(cvArr(a, f), i) == ((0 <= i && i < 8) ? be64byte(a, i) : (i == 8 ? f : 0))
+//@ spec func V_cr(amt Int, change Bool) Bytes = mkbytes(9, cvArr(u64(amt), change ? 2 : 0))
+//@ macro B_C(ns) = sub(bid(ns), bytes(bucketCredits))
+//@ macro SPENT_FLAG(v) = (bat(v, 8) % 2 == 1)
+
+// the amount written into an unspent credit value is read back unchanged
+//@ lemma credit_amount_roundtrip@C01: forall a Int, c Bool :: {V_cr(a, c)} 0 - 9223372036854775808 <= a && a <= 9223372036854775807 ==>
+//@     amtOf(V_cr(a, c)) == a && blen(V_cr(a, c)) == 9 && !SPENT_FLAG(V_cr(a, c))
+
+//@ func valueUnspent(block) (v)
+//@   property C01
+//@   requires nonnil: block != nil
+//@   fresh v
+//@   ensures layout: len(v) == 36 && bytes(v) == V_u(old(block.Hash), old(block.Height))
+//@   ensures frame: forall o Int :: {select(@M(uint8), o)} oldalloc(o) ==> select(@M(uint8), o) == select(old(@M(uint8)), o)
+
+//@ func readUnspentBlock(v, block) (err)
+//@   property C01
+//@   requires nonnil: block != nil
+//@   ensures short_refused: (err != nil) == (len(v) < 36)
+//@   ensures error_kind: err != nil ==> typeis(err, Error)
+//@   ensures height: err == nil ==> block.Height == old(i32(be32(v[0], v[1], v[2], v[3])))
+//@   ensures hash: err == nil ==> (forall i Int :: {select(block.Hash, i)} 0 <= i && i < 32 ==> select(block.Hash, i) == old(v[4 + i]))
+
+//@ func keyCredit(txHash, index, block) (k)
+//@   property C01
+//@   requires nonnil: txHash != nil && block != nil
+//@   fresh k
+//@   ensures key: len(k) == 72 && bytes(k) == K_cr(old(deref(txHash)), index, old(block.Hash), old(block.Height))
+//@   ensures frame: forall o Int :: {select(@M(uint8), o)} oldalloc(o) ==> select(@M(uint8), o) == select(old(@M(uint8)), o)
+
+//@ func valueUnspentCredit(cred) (v)
+//@   property C01
+//@   requires nonnil: cred != nil
+//@   fresh v
+//@   ensures layout: len(v) == 9 && bytes(v) == V_cr(old(cred.amount), old(cred.change))
+//@   ensures frame: forall o Int :: {select(@M(uint8), o)} oldalloc(o) ==> select(@M(uint8), o) == select(old(@M(uint8)), o)
+
+//@ func fetchRawCreditAmount(v) (amt, err)
+//@   property C01
+//@   pure
+//@   ensures short_refused: (err != nil) == (len(v) < 9)
+//@   ensures error_kind: err != nil ==> typeis(err, Error)
+//@   ensures amount: err == nil ==> amt == amtOf(bytes(v))
+
+//@ func fetchRawCreditAmountSpent(v) (amt, spent, err)
+//@   property C01
+//@   pure
+//@   ensures short_refused: (err != nil) == (len(v) < 9)
+//@   ensures amount: err == nil ==> amt == amtOf(bytes(v))
+//@   ensures spent_flag: err == nil ==> spent == SPENT_FLAG(bytes(v))
+
+// ---- one-record helpers: exactly one key of one bucket changes, nothing on failure ----
+//@ func valueUnminedCredit(amount, change) (v)
+//@   property C01
+//@   fresh v
+//@   ensures layout: len(v) == 9 && bytes(v) == V_cr(amount, change)
+//@   ensures frame: forall o Int :: {select(@M(uint8), o)} oldalloc(o) ==> select(@M(uint8), o) == select(old(@M(uint8)), o)
+
+//@ func fetchRawUnminedCreditAmount(v) (amt, err)
+//@   property C01
+//@   pure
+//@   ensures short_refused: (err != nil) == (len(v) < 9)
+//@   ensures error_kind: err != nil ==> typeis(err, Error)
+//@   ensures amount: err == nil ==> amt == amtOf(bytes(v))
+
+//@ func putUnspent(ns, outPoint, block) (err)
+//@   property C01
+//@   requires wf: ns != nil && outPoint != nil && block != nil && select(DBlive, B_U(ns))
+//@   ensures stored: err == nil ==> PUT1(B_U(ns), K_op(old(outPoint.Hash), old(outPoint.Index)), V_u(old(block.Hash), old(block.Height)))
+//@   ensures failure_changes_nothing: err != nil ==> DB_UNCHANGED()
+
+//@ func deleteRawUnspent(ns, k) (err)
+//@   property C01
+//@   requires wf: ns != nil && select(DBlive, B_U(ns))
+//@   ensures deleted: err == nil ==> DEL1(B_U(ns), old(bytes(k)))
+//@   ensures failure_changes_nothing: err != nil ==> DB_UNCHANGED()
+
+//@ func putRawCredit(ns, k, v) (err)
+//@   property C01
+//@   requires wf: ns != nil && select(DBlive, B_C(ns))
+//@   ensures stored: err == nil ==> PUT1(B_C(ns), old(bytes(k)), old(bytes(v)))
+//@   ensures failure_changes_nothing: err != nil ==> DB_UNCHANGED()
+
+//@ func putRawUnminedCredit(ns, k, v) (err)
+//@   property C01
+//@   requires wf: ns != nil && select(DBlive, B_MC(ns))
+//@   ensures stored: err == nil ==> PUT1(B_MC(ns), old(bytes(k)), old(bytes(v)))
+//@   ensures failure_changes_nothing: err != nil ==> DB_UNCHANGED()
+
+//@ func existsCredit(ns, txHash, index, block) (k, v)
+//@   property C01
+//@   requires wf: ns != nil && txHash != nil && block != nil && select(DBlive, B_C(ns))
+//@   ensures key: len(k) == 72 && bytes(k) == K_cr(old(deref(txHash)), index, old(block.Hash), old(block.Height))
+//@   ensures present: HAS(B_C(ns), bytes(k)) ==> v != nil && bytes(v) == VAL(B_C(ns), bytes(k))
+//@   ensures absent: !HAS(B_C(ns), bytes(k)) ==> v == nil
+//@   ensures db_unchanged: DB_UNCHANGED()
+//@   ensures frame: forall o Int :: {select(@M(uint8), o)} oldalloc(o) ==> select(@M(uint8), o) == select(old(@M(uint8)), o)
+
+// ---- addCredit: a credit is recorded once; a new mined credit enters the
+// unspent index under its block and the mined balance grows by its amount ----
+//@ macro CR_KEY(rec, index, block) = K_cr(rec.Hash, index, block.Block.Hash, block.Block.Height)
+//@ macro CR_AMT(rec, index) = rec.MsgTx.TxOut[index].Value
+// amounts are at most the money supply (21e14) and the stored balance is far from the int64 limits
+//@ macro AMT_OK(ns, rec, index) = (0 <= CR_AMT(rec, index) && CR_AMT(rec, index) <= 2100000000000000
+//@     && (BAL_OK(ns) ==> 0 - 9000000000000000000 <= BAL(ns) && BAL(ns) <= 9000000000000000000))
+//@ func (*Store).addCredit(s, ns, rec, block, index, change) (isNew, err)
+//@   property C01
+//@   requires wf: s != nil && rec != nil && NSWF(ns) && select(DBlive, B_C(ns))
+//@   requires index: 0 <= index && index < len(rec.MsgTx.TxOut) && rec.MsgTx.TxOut[index] != nil
+//@   requires amounts: AMT_OK(ns, rec, index)
+//@   ensures idempotent: block != nil && old(HAS(B_C(ns), CR_KEY(rec, index, block))) ==> !isNew && err == nil && DB_UNCHANGED()
+//@   ensures unmined_idempotent: block == nil && old(HAS(B_MC(ns), K_op(rec.Hash, index))) ==> !isNew && err == nil && DB_UNCHANGED()
+//@   ensures not_new_unchanged: !isNew && err == nil ==> DB_UNCHANGED()
+//@   ensures mined_new_credit: block != nil && isNew && err == nil ==> !old(HAS(B_C(ns), CR_KEY(rec, index, block)))
+//@       && HAS(B_C(ns), CR_KEY(rec, index, block)) && VAL(B_C(ns), CR_KEY(rec, index, block)) == V_cr(CR_AMT(rec, index), change)
+//@   ensures mined_new_unspent: block != nil && isNew && err == nil ==>
+//@       HAS(B_U(ns), K_op(rec.Hash, index)) && VAL(B_U(ns), K_op(rec.Hash, index)) == V_u(block.Block.Hash, block.Block.Height)
+//@   ensures mined_new_balance: block != nil && isNew && err == nil && 0 - 9223372036854775808 <= old(BAL(ns)) + CR_AMT(rec, index) && old(BAL(ns)) + CR_AMT(rec, index) <= 9223372036854775807
+//@       ==> BAL_OK(ns) && BAL(ns) == old(BAL(ns)) + CR_AMT(rec, index)
+//@   ensures unmined_new: block == nil && isNew && err == nil ==> !old(HAS(B_MC(ns), K_op(rec.Hash, index)))
+//@       && PUT1(B_MC(ns), K_op(rec.Hash, index), V_cr(CR_AMT(rec, index), change))
+//@   ensures mined_absent_is_new: block != nil && !old(HAS(B_C(ns), CR_KEY(rec, index, block))) && err == nil ==> isNew
+//@   ensures mined_new_frame: block != nil && err == nil ==> DBlive == old(DBlive)
+//@       && (forall b Int :: {select(DBhas, b)} {select(DBval, b)} b != B_C(ns) && b != B_U(ns) && b != bid(ns) ==> select(DBhas, b) == select(old(DBhas), b) && select(DBval, b) == select(old(DBval), b))
+//@       && (forall k Bytes :: {select(select(DBhas, B_C(ns)), k)} {select(select(DBval, B_C(ns)), k)} k != CR_KEY(rec, index, block) ==> HAS(B_C(ns), k) == old(HAS(B_C(ns), k)) && VAL(B_C(ns), k) == old(VAL(B_C(ns), k)))
+//@       && (forall k Bytes :: {select(select(DBhas, B_U(ns)), k)} {select(select(DBval, B_U(ns)), k)} k != K_op(rec.Hash, index) ==> HAS(B_U(ns), k) == old(HAS(B_U(ns), k)) && VAL(B_U(ns), k) == old(VAL(B_U(ns), k)))
+//@       && (forall k Bytes :: {select(select(DBhas, bid(ns)), k)} {select(select(DBval, bid(ns)), k)} k != K_BAL() ==> HAS(bid(ns), k) == old(HAS(bid(ns), k)) && VAL(bid(ns), k) == old(VAL(bid(ns), k)))
+
+// AddCredit refuses an output index the transaction does not have and otherwise is addCredit.
+//@ func (*Store).AddCredit(s, ns, rec, block, index, change) (err)
+//@   property C01
+//@   requires wf: s != nil && rec != nil && NSWF(ns) && select(DBlive, B_C(ns))
+//@   requires outputs: forall i Int :: {rec.MsgTx.TxOut[i]} 0 <= i && i < len(rec.MsgTx.TxOut) ==> rec.MsgTx.TxOut[i] != nil
+//@   requires amounts: index < len(rec.MsgTx.TxOut) ==> AMT_OK(ns, rec, index)
+//@   ensures bad_index_refused: index >= len(rec.MsgTx.TxOut) ==> err != nil && DB_UNCHANGED()
+//@   ensures idempotent: block != nil && index < len(rec.MsgTx.TxOut) && old(HAS(B_C(ns), CR_KEY(rec, index, block))) ==> err == nil && DB_UNCHANGED()
+//@   ensures unmined_idempotent: block == nil && index < len(rec.MsgTx.TxOut) && old(HAS(B_MC(ns), K_op(rec.Hash, index))) ==> err == nil && DB_UNCHANGED()
+
+// ---- Balance, first pass (one call per unspent-index record k -> v) ----
+// The credit's amount is subtracted from the running balance exactly once when
+// the output is leased at the clock reading or spent by an unmined transaction
+// (or both: once, not twice), and not at all otherwise.
+// Assumed about ForEach (G-DB): the pair is a record of the unspent bucket.
+// Amount ranges (credits hold valid money amounts, the running balance is far
+// from the int64 limits) are preconditions so that the arithmetic is exact.
+//@ macro OP_LEASED(ns, op, t) = (select(DBlive, B_LO(ns)) && HAS(B_LO(ns), K_op(op.Hash, op.Index)) && t < secToInt(leaseSec(VAL(B_LO(ns), K_op(op.Hash, op.Index)))) * 1000000000)
+//@ macro CREDIT_OF(ns, op, block) = VAL(B_C(ns), K_cr(op.Hash, op.Index, block.Hash, block.Height))
+//@ macro INV_C_AMOUNTS(ns) = (forall ck Bytes :: {select(select(DBval, B_C(ns)), ck)} HAS(B_C(ns), ck) ==> 0 <= amtOf(VAL(B_C(ns), ck)) && amtOf(VAL(B_C(ns), ck)) <= 2100000000000000)
+//@ func (*Store).Balance$1(k, v) (err)
+//@   property C01 C12
+//@   requires wf: s != nil && s.clock != nil && ns != nil && INV_LO(ns) && select(DBlive, B_C(ns)) && select(DBlive, B_MI(ns))
+//@   requires amounts: INV_C_AMOUNTS(ns) && 0 - 4000000000000000000 <= bal && bal <= 4000000000000000000
+//@   ensures decoded_len: err == nil ==> len(k) >= 36 && len(v) >= 36
+//@   ensures decoded_height: err == nil ==> block.Height == old(i32(be32(v[0], v[1], v[2], v[3])))
+//@   ensures decoded_hash: err == nil ==> (forall i Int :: {select(op.Hash, i)} 0 <= i && i < 32 ==> select(op.Hash, i) == old(k[i]))
+//@   ensures decoded_index: err == nil ==> op.Index == old(be32(k[32], k[33], k[34], k[35]))
+//@   ensures sub_once: err == nil && (OP_LEASED(ns, op, tns(clockVal(old(clk)))) || HAS(B_MI(ns), old(bytes(k))))
+//@       ==> bal == old(bal) - amtOf(CREDIT_OF(ns, op, block))
+//@   ensures no_sub: err == nil && !(OP_LEASED(ns, op, tns(clockVal(old(clk)))) || HAS(B_MI(ns), old(bytes(k)))) ==> bal == old(bal)
+//@   ensures db_unchanged: DB_UNCHANGED()
+//@   ensures one_reading: err == nil ==> clk == old(clk) + 1
+
+// ---- Balance, third pass (minConf == 0; one call per unmined credit k -> v) ----
+// An unmined credit is added exactly when it is neither leased at the clock
+// reading nor spent by an unmined transaction.
+//@ func (*Store).Balance$2(k, v) (err)
+//@   property C01 C12
+//@   requires wf: s != nil && s.clock != nil && ns != nil && INV_LO(ns) && select(DBlive, B_MI(ns))
+//@   requires amounts: 0 - 4000000000000000000 <= bal && bal <= 4000000000000000000 && (len(v) >= 9 ==> 0 <= amtOf(bytes(v)) && amtOf(bytes(v)) <= 2100000000000000)
+//@   ensures decoded_hash: err == nil ==> len(k) >= 36 && (forall i Int :: {select(op.Hash, i)} 0 <= i && i < 32 ==> select(op.Hash, i) == old(k[i]))
+//@   ensures decoded_index: err == nil ==> op.Index == old(be32(k[32], k[33], k[34], k[35]))
+//@   ensures add_unmined: err == nil && !OP_LEASED(ns, op, tns(clockVal(old(clk)))) && !HAS(B_MI(ns), old(bytes(k))) ==> len(v) >= 9 && bal == old(bal) + amtOf(old(bytes(v)))
+//@   ensures leased_or_spent_skipped: err == nil && (OP_LEASED(ns, op, tns(clockVal(old(clk)))) || HAS(B_MI(ns), old(bytes(k)))) ==> bal == old(bal)
+//@   ensures db_unchanged: DB_UNCHANGED()
+
+// MERGE NOTE: drop this block when merging with the wtxB contracts (they hold a
+// verified contract of readRawTxRecord with the same frame).
+// Deserialising a stored transaction record (wire.MsgTx.Deserialize behind it)
+// writes only the record it is handed and memory it allocates itself: assumed
+// frame (the wire codec is not modelled; nothing is claimed about the result).
+
+// ---- spendable set (UnspentOutputs / OutputsToWatch): fetchCredits, one call
+// per unspent-index record (closure 1) resp. unmined credit (closure 2) ----
+// A credit is appended exactly when it passes both filters: not leased at the
+// cached clock reading (unless includeLocked) and not spent by an unmined
+// transaction (unless includeSpentByUnmined); the appended entry names the
+// record's outpoint. Assumed about ForEach: (k, v) is a record of the bucket
+// and k holds bytes.
+//@ macro KEY_LEASED(ns, key, t) = (select(DBlive, B_LO(ns)) && HAS(B_LO(ns), key) && t < secToInt(leaseSec(VAL(B_LO(ns), key))) * 1000000000)
+//@ macro KEY36(k) = bsub(bytes(k), 0, 36)
+//@ macro CRED_FILTERED(ns, k, includeLocked, includeSpentByUnmined, now) =
+//@     ((!includeLocked && KEY_LEASED(ns, KEY36(k), tns(now))) || (!includeSpentByUnmined && HAS(B_MI(ns), bytes(k))))
+//@ func (*Store).fetchCredits$1(k, v) (err)
+//@   property C01 C12
+//@   requires wf: ns != nil && INV_LO(ns) && select(DBlive, B_MI(ns))
+//@   requires bytes_are_bytes: forall i Int :: {k[i]} 0 <= k[i] && k[i] <= 255
+//@   ensures filtered_out: err == nil && old(CRED_FILTERED(ns, k, includeLocked, includeSpentByUnmined, now)) ==> credits == old(credits)
+//@   ensures included: err == nil && !old(CRED_FILTERED(ns, k, includeLocked, includeSpentByUnmined, now)) ==> len(credits) == old(len(credits)) + 1
+//@   ensures included_outpoint: err == nil && len(credits) == old(len(credits)) + 1 ==>
+//@       K_op(credits[len(credits) - 1].OutPoint.Hash, credits[len(credits) - 1].OutPoint.Index) == old(KEY36(k))
+//@   ensures earlier_kept: forall j Int :: {credits[j]} 0 <= j && j < old(len(credits)) ==> credits[j] == old(credits[j])
+//@   ensures db_unchanged: DB_UNCHANGED()
+
+//@ func (*Store).fetchCredits$2(k, v) (err)
+//@   property C01 C12
+//@   requires wf: ns != nil && INV_LO(ns) && select(DBlive, B_MI(ns)) && select(DBlive, sub(bid(ns), bytes(bucketUnmined)))
+//@   requires bytes_are_bytes: forall i Int :: {k[i]} 0 <= k[i] && k[i] <= 255
+//@   ensures filtered_out: err == nil && old(CRED_FILTERED(ns, k, includeLocked, includeSpentByUnmined, now)) ==> credits == old(credits)
+//@   ensures included_outpoint: err == nil && len(credits) == old(len(credits)) + 1 ==>
+//@       K_op(credits[len(credits) - 1].OutPoint.Hash, credits[len(credits) - 1].OutPoint.Index) == old(KEY36(k))
+//@   ensures grows_by_at_most_one: credits == old(credits) || len(credits) == old(len(credits)) + 1
+//@   ensures earlier_kept: forall j Int :: {credits[j]} 0 <= j && j < old(len(credits)) ==> credits[j] == old(credits[j])
+//@   ensures db_unchanged: DB_UNCHANGED()
+//@   ensures included: err == nil && !old(CRED_FILTERED(ns, k, includeLocked, includeSpentByUnmined, now)) && HAS(sub(bid(ns), bytes(bucketUnmined)), old(bsub(bytes(k), 0, 32)))
+//@       ==> len(credits) == old(len(credits)) + 1
+
+// ---- Balance itself: callee preconditions of the three passes; the per-record
+// rules are the closure contracts Balance$1 / Balance$2 above. (The second
+// pass - young / immature outputs - is not under a classification contract:
+// a fold invariant over the inner loop was written and all of it but the
+// subtracting path of its step discharged; that one needs 10-80 s, so it was
+// left out.) ----
+//@ func (*Store).Balance(s, ns, minConf, syncHeight) (r, err)
+//@   property C01 C12
+//@   requires wf: s != nil && s.clock != nil && s.chainParams != nil && ns != nil && INV_LO(ns) && select(DBlive, B_C(ns)) && select(DBlive, B_MI(ns))
+//@   ensures error_zero: err != nil ==> r == 0
+
+// ---- spending / unspending a credit, recording a debit: one record each ----
+// spendCredit rewrites the credit k as spent: same amount, spent flag set,
+// other flag bits kept, followed by the spender's debit key (tx hash, block
+// height, block hash, input index - the layout of K_cr); returns the amount.
+//@ macro B_D(ns) = sub(bid(ns), bytes(bucketDebits))
+//@ func spendCredit(ns, k, spender) (amt, err)
+//@   property C01
+//@   requires wf: ns != nil && spender != nil && select(DBlive, B_C(ns))
+//@   requires credit: HAS(B_C(ns), bytes(k)) && blen(VAL(B_C(ns), bytes(k))) >= 9 && blen(VAL(B_C(ns), bytes(k))) <= 81
+//@   ensures amount: amt == old(amtOf(VAL(B_C(ns), bytes(k))))
+//@   ensures one_key: err == nil ==> PUT1(B_C(ns), old(bytes(k)), VAL(B_C(ns), old(bytes(k))))
+//@   ensures marked_spent: err == nil ==> blen(VAL(B_C(ns), old(bytes(k)))) == 81 && SPENT_FLAG(VAL(B_C(ns), old(bytes(k))))
+//@       && amtOf(VAL(B_C(ns), old(bytes(k)))) == old(amtOf(VAL(B_C(ns), bytes(k))))
+//@       && (bat(VAL(B_C(ns), old(bytes(k))), 8) / 2) == old(bat(VAL(B_C(ns), bytes(k)), 8) / 2)
+//@   ensures spender_tx: err == nil ==> (forall j Int :: {bat(VAL(B_C(ns), old(bytes(k))), j)} 9 <= j && j < 41 ==> bat(VAL(B_C(ns), old(bytes(k))), j) == old(select(spender.txHash, j - 9)))
+//@   ensures spender_height: err == nil ==> (forall j Int :: {bat(VAL(B_C(ns), old(bytes(k))), j)} 41 <= j && j < 45 ==> bat(VAL(B_C(ns), old(bytes(k))), j) == be32byte(u32(old(spender.block.Height)), j - 41))
+//@   ensures spender_block: err == nil ==> (forall j Int :: {bat(VAL(B_C(ns), old(bytes(k))), j)} 45 <= j && j < 77 ==> bat(VAL(B_C(ns), old(bytes(k))), j) == old(select(spender.block.Hash, j - 45)))
+//@   ensures spender_index: err == nil ==> (forall j Int :: {bat(VAL(B_C(ns), old(bytes(k))), j)} 77 <= j && j < 81 ==> bat(VAL(B_C(ns), old(bytes(k))), j) == be32byte(old(spender.index), j - 77))
+//@   ensures failure_changes_nothing: err != nil ==> DB_UNCHANGED()
+
+// unspendRawCredit rewrites an existing credit as unspent (9 bytes, spent flag
+// cleared, amount and other flags kept) and returns its amount; a missing
+// credit is left alone.
+//@ func unspendRawCredit(ns, k) (amt, err)
+//@   property C01
+//@   requires wf: ns != nil && select(DBlive, B_C(ns))
+//@   requires credit: HAS(B_C(ns), bytes(k)) ==> blen(VAL(B_C(ns), bytes(k))) >= 9
+//@   ensures missing_noop: !old(HAS(B_C(ns), bytes(k))) ==> amt == 0 && err == nil && DB_UNCHANGED()
+//@   ensures amount: old(HAS(B_C(ns), bytes(k))) && err == nil ==> amt == old(amtOf(VAL(B_C(ns), bytes(k))))
+//@   ensures one_key: old(HAS(B_C(ns), bytes(k))) && err == nil ==> PUT1(B_C(ns), old(bytes(k)), VAL(B_C(ns), old(bytes(k))))
+//@   ensures marked_unspent: old(HAS(B_C(ns), bytes(k))) && err == nil ==> blen(VAL(B_C(ns), old(bytes(k)))) == 9 && !SPENT_FLAG(VAL(B_C(ns), old(bytes(k))))
+//@       && amtOf(VAL(B_C(ns), old(bytes(k)))) == old(amtOf(VAL(B_C(ns), bytes(k))))
+//@       && (bat(VAL(B_C(ns), old(bytes(k))), 8) / 2) == old(bat(VAL(B_C(ns), bytes(k)), 8) / 2)
+//@   ensures failure_changes_nothing: err != nil ==> DB_UNCHANGED()
+
+//@ func keyDebit(txHash, index, block) (k)
+//@   property C01
+//@   requires nonnil: txHash != nil && block != nil
+//@   fresh k
+//@   ensures key: len(k) == 72 && bytes(k) == K_cr(old(deref(txHash)), index, old(block.Hash), old(block.Height))
+//@   ensures frame: forall o Int :: {select(@M(uint8), o)} oldalloc(o) ==> select(@M(uint8), o) == select(old(@M(uint8)), o)
+
+// putDebit records the debit (amount, key of the spent credit) under the
+// spender's key (same layout as a credit key, with the input index).
+//@ func putDebit(ns, txHash, index, amount, block, credKey) (err)
+//@   property C01
+//@   requires wf: ns != nil && txHash != nil && block != nil && select(DBlive, B_D(ns)) && len(credKey) == 72
+//@   ensures one_key: err == nil ==> PUT1(B_D(ns), K_cr(old(deref(txHash)), index, old(block.Hash), old(block.Height)), VAL(B_D(ns), K_cr(old(deref(txHash)), index, old(block.Hash), old(block.Height))))
+//@   ensures recorded: err == nil ==> blen(VAL(B_D(ns), K_cr(old(deref(txHash)), index, old(block.Hash), old(block.Height)))) == 80
+//@       && amtOf(VAL(B_D(ns), K_cr(old(deref(txHash)), index, old(block.Hash), old(block.Height)))) == amount
+//@       && bsub(VAL(B_D(ns), K_cr(old(deref(txHash)), index, old(block.Hash), old(block.Height))), 8, 80) == old(bytes(credKey))
+//@   ensures failure_changes_nothing: err != nil ==> DB_UNCHANGED()
